@@ -55,6 +55,10 @@ pub struct Case {
     /// i.e. between the snapshot of the region's metadata and the acquisition of the map
     #[serde(default)]
     pub hold_readers_at_mmap: u8,
+    /// after every write the writer also creates another region and fills it (no Database::flush in between:
+    /// the extent a relocated vector left behind must not be handed out while a reader may still use it)
+    #[serde(default)]
+    pub alloc_other: bool,
     pub stickiness: u16,
     pub choices: Vec<u16>,
 }
@@ -322,10 +326,10 @@ where
     // the writer owns the vector for the duration of the run
     let vec_slot: Arc<Mutex<Option<V>>> = Arc::new(Mutex::new(sut.vec.take()));
     {
-        let (sh, slot, flush, db) = (sh.clone(), vec_slot.clone(), case.flush, sut.db.clone());
+        let (sh, slot, flush, db, alloc_other) = (sh.clone(), vec_slot.clone(), case.flush, sut.db.clone(), case.alloc_other);
         progs.push(Box::new(move || {
             let mut v = slot.lock().unwrap().take().expect("vector");
-            for (base, n) in plan {
+            for (j, (base, n)) in plan.into_iter().enumerate() {
                 sched::pause("writer:between-batches");
                 for i in base..base + n {
                     v.push(val::<V::T>(i));
@@ -340,6 +344,16 @@ where
                 }
                 if db.file_len() != f0 {
                     sh.file_grew_in_write.store(true, Ordering::Relaxed);
+                }
+                if alloc_other {
+                    match db.create_region_if_needed(&format!("other{j}")) {
+                        Ok(r) => {
+                            if let Err(e) = r.write(&vec![0xEEu8; 9000 + 4096 * j]) {
+                                sh.errors.lock().unwrap().push(format!("writer: filling another region failed: {e}"));
+                            }
+                        }
+                        Err(e) => sh.errors.lock().unwrap().push(format!("writer: creating another region failed: {e}")),
+                    }
                 }
             }
             *slot.lock().unwrap() = Some(v);
@@ -357,6 +371,9 @@ where
     let hold = (case.hold_readers_at_mmap > 0).then(|| sched::Holdback { progs: !1u32, class: "mmap", points: case.hold_readers_at_mmap as usize * 16 });
     if hold.is_some() {
         obs.label("readers-held-back-at-the-memory-map-lock");
+    }
+    if case.alloc_other {
+        obs.label("writer-allocates-another-region-after-each-write");
     }
     let out = sched::run_full(progs, &case.choices, case.stickiness, names, preempt, hold);
     sut.vec = vec_slot.lock().unwrap().take();
@@ -439,11 +456,11 @@ impl Prop for P {
             prop::bool::weighted(0.4),
             prop::collection::vec(prop::collection::vec(rstep(), 1..=6), 1..=2),
             prop::bool::weighted(0.5),
-            prop_oneof![3 => Just(0u8), 1 => Just(2u8), 1 => Just(6u8), 1 => Just(20u8)],
+            (prop_oneof![3 => Just(0u8), 1 => Just(2u8), 1 => Just(6u8), 1 => Just(20u8)], prop::bool::weighted(0.3)),
             prop_oneof![Just(0u16), Just(30000u16), Just(52000u16), Just(62000u16)],
             prop::collection::vec(any::<u16>(), 0..300),
         )
-            .prop_map(move |(ci, initial, batches, flush, fill_file, readers, preempt_before_publish, hold_readers_at_mmap, stickiness, choices)| Case {
+            .prop_map(move |(ci, initial, batches, flush, fill_file, readers, preempt_before_publish, (hold_readers_at_mmap, alloc_other), stickiness, choices)| Case {
                 cfg: VecCfg { fmt: pairs[ci].0, ty: pairs[ci].1, retention: 0 },
                 initial,
                 batches,
@@ -452,6 +469,7 @@ impl Prop for P {
                 readers,
                 preempt_before_publish,
                 hold_readers_at_mmap,
+                alloc_other,
                 stickiness,
                 choices,
             })
@@ -464,7 +482,7 @@ impl Prop for P {
     }
 
     fn rule() -> String {
-        "one writer program (append batches sized {small, to the page boundary +-2, one page +-1, 2.5 pages}, write() or flush() after each; raw and compressed formats of the matrix; 4 KiB regions so that relocation and file growth fall inside the run) and 1-2 reader programs over read-only clones created before the run (steps: len, collect_one_at, collect_range_at, fold/try_fold/for_each_dyn, cursor advance+next, read_sorted_at, boxed clone, collect) executed by the deterministic scheduler: every tapped lock request and every yield point (incl. the ones before/after the stored-length publication inside write()) is a scheduling point and the next program is taken from a generated choice vector (uniform, or sticky with weight 30000/52000/62000 of 65536). Oracle: every value returned for index i equals the value the writer pushed at i; every sequence returned covers at least the indices below the length the reader had observed before the call; observed lengths never decrease; no panic; no model deadlock; final contents complete. Non-trivial: a reader ran while the writer was parked between its data/page-index write and the publication of the new length.".into()
+        "one writer program (append batches sized {small, to the page boundary +-2, one page +-1, 2.5 pages}, write() or flush() after each, in 3 of 10 cases followed by the creation and filling of another region; raw and compressed formats of the matrix; 4 KiB regions so that relocation and file growth fall inside the run) and 1-2 reader programs over read-only clones created before the run (steps: len, collect_one_at, collect_range_at, fold/try_fold/for_each_dyn, cursor advance+next, read_sorted_at, boxed clone, collect) executed by the deterministic scheduler: every tapped lock request and every yield point (incl. the ones before/after the stored-length publication inside write()) is a scheduling point and the next program is taken from a generated choice vector (uniform, or sticky with weight 30000/52000/62000 of 65536). Oracle: every value returned for index i equals the value the writer pushed at i; every sequence returned covers at least the indices below the length the reader had observed before the call; observed lengths never decrease; no panic; no model deadlock; final contents complete. Non-trivial: a reader ran while the writer was parked between its data/page-index write and the publication of the new length.".into()
     }
 
     fn mandatory_labels() -> &'static [&'static str] {
